@@ -31,15 +31,21 @@ static struct c16_sched g_rsched, g_fsched;
 static struct c16_sched *g_wsched, *g_lsched;
 
 #define NOCAP INT_MAX
+static pthread_mutex_t sched_lock = PTHREAD_MUTEX_INITIALIZER;
+static int g_yield; /* the client has several writer threads */
+static int g_rdelay; /* usec the server sleeps before every read() of a socket: a slow reader */
+
 static int sched_next(struct c16_sched *s)
 {
 	int v;
 
 	if (!s || s->n == 0)
 		return NOCAP;
+	pthread_mutex_lock(&sched_lock);
 	v = s->v[s->pos];
 	s->pos = (s->pos + 1) % s->n;
 	s->calls++;
+	pthread_mutex_unlock(&sched_lock);
 	return v;
 }
 
@@ -48,6 +54,9 @@ ssize_t read(int fd, void *buf, size_t n)
 {
 	if (g_role == ROLE_SERVER && fd >= 0 && fd < 1024 && g_issock[fd] && n > 0) {
 		int v = sched_next(&g_rsched);
+
+		if (g_rdelay)
+			usleep(g_rdelay);
 
 		if (v == 0) {
 			errno = EINTR;
@@ -129,6 +138,14 @@ ssize_t writev(int fd, const struct iovec *iov, int cnt)
 		k++;
 	}
 	r = syscall(SYS_writev, fd, tmp, k);
+	if (g_yield && g_role == ROLE_CLIENT && fd == g_sock && r >= 0) {
+		size_t full = 0;
+
+		for (i = 0; i < cnt; i++)
+			full += iov[i].iov_len;
+		if ((size_t)r < full)
+			usleep(50); /* a writer that got a short count waits for buffer space: other threads run */
+	}
 	if (r > 0 && g_role == ROLE_CLIENT && fd == g_sock) {
 		size_t left = r;
 
@@ -183,6 +200,8 @@ static void parse_case(const char *path)
 			parse_sched(&g_rsched, p + 7);
 		else if (!strncmp(p, "fsched ", 7))
 			parse_sched(&g_fsched, p + 7);
+		else if (!strncmp(p, "rdelay ", 7))
+			g_rdelay = atoi(p + 7);
 		else if (!strncmp(p, "client ", 7)) {
 			char a[PATH_MAX], b[PATH_MAX];
 
@@ -214,6 +233,16 @@ static void parse_case(const char *path)
 					   !strcmp(kind, "kernel") ? OP_KERNEL : OP_PERF;
 				sscanf(rest, "%63s %n", a1, &off);
 				op->num = atol(a1);
+				op->arg = strdup(rest + off);
+			}
+			else if (!strcmp(kind, "tdata")) {
+				int th = 0;
+				long tid = 0;
+
+				op->kind = OP_TDATA;
+				sscanf(rest, "%d %ld %n", &th, &tid, &off);
+				op->thread = th;
+				op->num = tid;
 				op->arg = strdup(rest + off);
 			}
 			else if (!strcmp(kind, "bigdata")) {
@@ -332,6 +361,8 @@ static int client_main(struct c16_client *c, int sock)
 	g_role = ROLE_CLIENT;
 	for (i = 0; i < c->nops; i++)
 		has_end |= c->ops[i].kind == OP_END;
+	for (i = 0; i < c->nops; i++)
+		g_yield |= c->ops[i].kind == OP_TDATA;
 	for (i = 0; i < c->nops; i++)
 		has_abort |= c->ops[i].kind == OP_ABORT;
 
